@@ -382,7 +382,7 @@ fn hook_case(o: &mut Outcome, hc: &HookCase, tag: &str) -> Option<hv::ListRec> {
         );
         o.count(if rec.out.is_some() { "rewrite:ok" } else { "rewrite:err" });
     }
-    if let Some(out) = &rec.out {
+    if let (Some(out), true) = (&rec.out, form) {
         o.count(if out.contains('\n') { "rewrite:vertical" } else { "rewrite:one_line" });
         let toks: Vec<String> = mfields.iter().flat_map(|m| vec![m.head.clone(), m.value.clone()]).collect();
         o.push("oracle", "vert.oracle.inorder", format!("vert.oracle.inorder {} {}", enc_list(&toks), enc_str(out)), "ok".into(), format!("{} fields kept {:?}", tag, hc.src), n > 1);
@@ -433,7 +433,8 @@ fn e2e_batch(o: &mut Outcome, batch: &[E2e], tag: &str) {
         let out1 = &r1.out;
         let desc = format!("{} {:?} {:?}", tag, e.cfg, e.src);
         // C01 / C03 oracles on the formatter's output
-        o.push("oracle", "vert.oracle.inorder", format!("vert.oracle.inorder {} {}", enc_list(&tokens_of(&e.list, &e.src)), enc_str(out1)), "ok".into(), format!("e2e fields kept {}", desc), true);
+        let toks: Vec<String> = tokens_of(&e.list, &e.src).into_iter().filter(|t| (e.cfg.max_width >= 40 && e.cfg.trailing_comma != 0) || t.ends_with(':')).collect();
+        o.push("oracle", "vert.oracle.tokens", format!("vert.oracle.tokens {} {}", enc_list(&toks), enc_str(out1)), "ok".into(), format!("e2e fields kept {}", desc), true);
         let cs = scan_comments(&e.src);
         if !cs.is_empty() {
             o.push("oracle", "vert.oracle.comments", format!("vert.oracle.comments {} {}", enc_list(&cs), enc_str(out1)), "ok".into(), format!("e2e comments kept {}", desc), true);
@@ -469,7 +470,7 @@ fn e2e_batch(o: &mut Outcome, batch: &[E2e], tag: &str) {
             continue;
         }
         let lit_unaligned = e.list.kind == 2 && e.cfg.threshold == 0;
-        let one_line = !out1[a_out.lo..a_out.hi].contains('\n');
+        let one_line = !out1[a_out.fields[0].lo..a_out.fields[a_out.fields.len() - 1].hi].contains('\n');
         if e.cfg.threshold > 0 && !one_line {
             o.direct_evals += 1;
             o.count("e2e:groups_stable");
@@ -484,11 +485,18 @@ fn e2e_batch(o: &mut Outcome, batch: &[E2e], tag: &str) {
             let t = &out1[f.lo..f.hi];
             t.rsplit('\n').next().map_or(true, |l| !l.contains(':'))
         });
-        let skip_align = one_line || multi_line_field || lit_unaligned || e.list.fields.iter().any(|f| e.list.kind == 2 && !f.attrs.is_empty());
+        // narrow widths: a field that does not fit with its padding is laid out again without it (outside the model);
+        // a literal's field with an attribute: known finding VERT-LIT-ATTR-OVERPAD (probe below)
+        let lit_attr = e.list.kind == 2 && a_out.fields.iter().any(|f| out1[f.lo..f.hi].starts_with('#'));
+        let skip_align = one_line || multi_line_field || lit_unaligned || lit_attr || e.cfg.max_width < 60;
         if !skip_align {
             let mut start = 0;
             for (end, _) in &a_out.groups {
-                let ms: Vec<Option<(usize, usize)>> = (start..=*end).map(|i| measure(out1, a_out.fields[i].lo, a_out.fields[i].hi)).collect();
+                let ms: Vec<Option<(usize, usize)>> = (start..=*end).map(|i| measure(out1, a_out.fields[i].lo, a_out.fields[i].hi).map(|m| if a_out.fields[i].skip { (m.0, 0) } else { m })).collect();
+                if ms.is_empty() {
+                    start = end + 1;
+                    continue;
+                }
                 start = end + 1;
                 if ms.iter().any(|m| m.is_none()) {
                     o.count("e2e:align:unmeasured");
@@ -501,7 +509,8 @@ fn e2e_batch(o: &mut Outcome, batch: &[E2e], tag: &str) {
         }
         // the text between consecutive fields of a comment-free vertical result
         let plain = cs.is_empty() && !e.src.contains("//") && !e.src.contains("/*");
-        if plain && !one_line && ascii_simple(&e.src) && e.list.fields.iter().all(|f| f.attrs.is_empty()) {
+        let col0 = { let lo = a_out.fields[0].lo; lo - out1[..lo].rfind('\n').map_or(0, |k| k + 1) };
+        if plain && !one_line && !lit_unaligned && e.cfg.max_width >= 60 && col0 == ind && ascii_simple(&e.src) && e.list.fields.iter().all(|f| f.attrs.is_empty()) {
             let n = a_in.fields.len();
             let mut enc = vec![];
             for (i, f) in a_in.fields.iter().enumerate() {
@@ -604,9 +613,23 @@ pub fn cases(o: &mut Outcome, rng: &mut Rng, thorough: bool) {
     e2e_batch(o, &batch, "gen");
 }
 
+/// Enumerated probes of inputs known dirty on the pinned tree.
+pub fn probes(o: &mut Outcome) {
+    // VERT-LIT-ATTR-OVERPAD: `ExprField::rewrite_prefix` measures a short attribute and the name on one line
+    // (`#[a] x`), `rewrite_field` always puts the attribute on its own line and pads from the name alone:
+    // the values of the group are aligned with each other but stand further right than `max + 1`.
+    let src = "fn f() {\n    let v = S {\n        #[a]\n        x: 1,\n        yyyy: 2,\n    };\n}\n";
+    let cfg = VCfg { threshold: 20, max_width: 100, trailing_comma: 2, tab_spaces: 4, upper: 1, variant_width: 35 };
+    let outs = pool::run_jobs(&[pool::Job { src: src.to_string(), cfg: cfg_pairs(&cfg), file_lines: None }], 1, std::time::Duration::from_secs(20));
+    let out = outs.first().map(|r| r.out.clone()).unwrap_or_default();
+    let fails = out.contains("x:      1,") && out.contains("yyyy:   2,");
+    o.probes.push(json!({"id": "VERT-LIT-ATTR-OVERPAD", "fails": fails, "what": "a struct literal's field with a short attribute widens the alignment column of its group by the width of the attribute (values start 2 columns right of the longest name's colon + 1)", "detail": out}));
+}
+
 pub fn run(tier: &str, seed: u64, out: &std::path::Path) -> i32 {
     let mut o = Outcome::new("VERTICAL", tier, seed);
     let mut rng = Rng::new(seed);
     cases(&mut o, &mut rng, tier == "thorough");
+    probes(&mut o);
     o.finish(out, jobs())
 }
